@@ -47,7 +47,11 @@ EXPLANATION = (
     "The abstract executions of 9-12 and 15 follow calls of module-level package helpers (the str/bytes step or the prefix "
     "handling factored out, to depth 3, arguments bound to the abstract values, the result taken when the helper's return "
     "is certain or all its possible returns agree), tuple results / tuple unpacking / indexing of a result tuple, and "
-    "concatenation of constants. "
+    "concatenation of constants; a kind dispatch written as data is decided as well: a for loop (tuple targets, break / "
+    "for-else) or next() over a generator is unrolled over a module-level table of up to 64 rows whose cells are "
+    "constants or classes, small dicts with constant keys are indexed, and `return <row's class>.init_from_string(..)` "
+    "counts for the class the row holds (rule 6 then takes the dispatched class, its argument and the handler from the "
+    "abstract execution per class and compares each row's prefix with that class's BASE_STRING). "
     "Undecided: base32 a2b/b2a arithmetic itself (value level), int() of huge digit strings, the free-form MDMF "
     "extension fields (explicitly allowed to be dropped); which kinds from_string refuses behind a 'ro.'/'imm.' prefix or "
     "with deep_immutable=True (flag clearing, the error/kind reported for a constraint failure - property C16), str inputs "
@@ -432,9 +436,27 @@ def _truth(v):
         return v[1] > 0
     if v[0] == "h" and v[1]:
         return True
-    if v[0] == "t":
+    if v[0] in ("t", "d"):
         return len(v[1]) > 0
+    if v[0] == "k":
+        return True                      # a class object
     return None
+
+
+MAX_TABLE = 64                                   # rows of a constant table a loop / generator is unrolled over
+
+
+def _elements(v):
+    """The elements of an abstract tuple / constant tuple / constant bytes in order, or None (not known / too long)."""
+    if v[0] == "t":
+        els = list(v[1])
+    elif v[0] == "c" and isinstance(v[1], tuple):
+        els = [_const(x) for x in v[1]]
+    elif v[0] == "c" and isinstance(v[1], bytes):
+        els = [_const(x) for x in v[1]]
+    else:
+        return None
+    return els if len(els) <= MAX_TABLE else None
 
 
 def _h_startswith(head, ps):
@@ -614,6 +636,14 @@ class _AI:
         if isinstance(e, ast.Name):
             if e.id in env:
                 return env[e.id]
+            mv = self.module_value(e.id)
+            if mv is not None:
+                return mv
+        elif isinstance(e, ast.Dict) and all(k is not None for k in e.keys):
+            ks = [self.ev(k, env) for k in e.keys]        # a small dispatch dict with constant keys
+            if all(k[0] == "c" for k in ks) and len({k[1] for k in ks}) == len(ks):
+                return ("d", tuple((k[1], self.ev(x, env)) for k, x in zip(ks, e.values)))
+            return UNK
         elif isinstance(e, ast.Attribute) and attr_path(e) and attr_path(e) in env:
             return env[attr_path(e)]
         elif isinstance(e, ast.Attribute) and attr_path(e) and attr_path(e).split(".")[0] in env:
@@ -648,7 +678,7 @@ class _AI:
                                   ast.GtE: a[1] >= b[1]}[type(op)])
             elif isinstance(op, (ast.Is, ast.IsNot)):
                 for x, y in ((a, b), (b, a)):
-                    if x == ("c", None) and (y in (IN, CUT) or y[0] in ("b", "i", "h")):
+                    if x == ("c", None) and (y in (IN, CUT) or y[0] in ("b", "i", "h", "t", "k", "d")):
                         return ("c", isinstance(op, ast.IsNot))
             elif isinstance(op, (ast.Eq, ast.NotEq)):
                 for x, y in ((a, b), (b, a)):
@@ -669,6 +699,13 @@ class _AI:
             return ("t", vs)
         elif isinstance(e, ast.Subscript):
             v = self.ev(e.value, env)
+            if v[0] == "d":
+                i = UNK if isinstance(e.slice, ast.Slice) else self.ev(e.slice, env)
+                if i[0] == "c":
+                    for (kk, vv) in v[1]:
+                        if type(kk) is type(i[1]) and kk == i[1]:
+                            return vv
+                return UNK
             if v[0] == "t" or (v[0] == "c" and isinstance(v[1], tuple)):
                 if isinstance(e.slice, ast.Slice):
                     return UNK
@@ -714,6 +751,9 @@ class _AI:
                     if v[0] == "c":
                         return ("c", isinstance(v[1], tuple(_TYPES[t.id] for t in ts)))
                 return UNK
+            if isinstance(e.func, ast.Name) and e.func.id == "next" and len(e.args) in (1, 2) and "next" not in env \
+                    and isinstance(e.args[0], ast.GeneratorExp) and self.idx.resolve_name(self.module, "next") is None:
+                return self.first_of(e.args[0], e.args[1] if len(e.args) == 2 else None, env)
             if isinstance(e.func, ast.Name) and e.func.id == "bool" and len(e.args) == 1 and "bool" not in env:
                 t = _truth(self.ev(e.args[0], env))
                 return UNK if t is None else ("c", t)
@@ -784,6 +824,76 @@ class _AI:
         except Exception:
             return UNK
 
+    def module_value(self, name, _depth=[0]):
+        """A module-level name the folder may not know: a class (-> ("k", qual)) or a table assigned once at module
+        level whose rows hold classes next to constants (evaluated element by element).  None: neither."""
+        try:
+            tgt = self.idx.resolve_name(self.module, name)
+        except Exception:
+            tgt = None
+        if isinstance(tgt, ClassInfo):
+            return ("k", tgt.qual)
+        exprs = self.module.assigns.get(name)
+        if not exprs or len(exprs) != 1 or not isinstance(exprs[0], (ast.Tuple, ast.List)) or _depth[0] > 3:
+            return None
+        try:
+            return _const(self.F.fold(exprs[0], self.module, None))
+        except Exception:
+            pass
+        if any(isinstance(x, ast.Starred) for x in exprs[0].elts):
+            return None
+        _depth[0] += 1
+        try:
+            vs = tuple(self.ev(x, {}) for x in exprs[0].elts)
+        finally:
+            _depth[0] -= 1
+        return ("t", vs)
+
+    def bind(self, t, v, env):
+        """Assignment of the abstract value v to the target t (names, attribute paths, tuples of them: element by
+        element when the value's length is known and fits)."""
+        if isinstance(t, (ast.Tuple, ast.List)) and not any(isinstance(x, ast.Starred) for x in t.elts):
+            parts = _elements(v) if (v[0] == "t" or (v[0] == "c" and isinstance(v[1], tuple))) else None
+            if parts is not None and len(parts) == len(t.elts):
+                for x, pv in zip(t.elts, parts):
+                    self.bind(x, pv, env)
+                return
+        elif isinstance(t, ast.Name):
+            env[t.id] = v
+            return
+        elif isinstance(t, ast.Attribute) and attr_path(t):
+            env[attr_path(t)] = v
+            return
+        for x in ast.walk(t):
+            if isinstance(x, ast.Name) and isinstance(x.ctx, ast.Store):
+                env[x.id] = UNK
+            elif isinstance(x, ast.Attribute) and isinstance(x.ctx, ast.Store) and attr_path(x):
+                env[attr_path(x)] = UNK
+
+    def first_of(self, gen, default, env):
+        """next((elt for target in TABLE if cond..), default): the first row of a constant table whose conditions are
+        certainly true, provided the conditions of all rows before it are certainly false."""
+        if len(gen.generators) != 1 or gen.generators[0].is_async:
+            return UNK
+        g = gen.generators[0]
+        els = _elements(self.ev(g.iter, env))
+        if els is None:
+            return UNK
+        for el in els:
+            env2 = dict(env)
+            self.bind(g.target, el, env2)
+            ok = True
+            for c in g.ifs:
+                t = _truth(self.ev(c, env2))
+                if t is None:
+                    return UNK
+                if not t:
+                    ok = False
+                    break
+            if ok:
+                return self.ev(gen.elt, env2)
+        return self.ev(default, env) if default is not None else UNK      # no default: StopIteration
+
     def defaults(self):
         a = self.fn.node.args
         pos = list(a.posonlyargs) + list(a.args)
@@ -826,51 +936,38 @@ class _AI:
                 return freeze(env, False)
             if n.kind == "stmt" and isinstance(n.ast, (ast.Return, ast.Raise)):
                 return None
-            if n.kind == "iter" and lab in ("iter", "done") and isinstance(n.ast.target, ast.Name) \
-                    and id(n.ast) not in nested_loops:
-                # a loop over a short constant table (e.g. the alleged prefixes) is unrolled: the position is part
-                # of the state, the target takes the elements in turn
-                if isinstance(n.ast.iter, (ast.Tuple, ast.List)):
-                    els = [self.ev(x, env) for x in n.ast.iter.elts]
-                    it = ("c", tuple(x[1] for x in els)) if all(x[0] == "c" for x in els) else UNK
+            if n.kind == "iter" and lab in ("iter", "done") and id(n.ast) not in nested_loops and (
+                    isinstance(n.ast.target, ast.Name) or (
+                        isinstance(n.ast.target, (ast.Tuple, ast.List))
+                        and all(isinstance(x, ast.Name) for x in n.ast.target.elts))):
+                # a loop over a short constant table (the alleged prefixes, the rows of a dispatch table) is unrolled:
+                # the position is part of the state, the target(s) take the elements in turn
+                if isinstance(n.ast.iter, (ast.Tuple, ast.List)) and not any(isinstance(x, ast.Starred) for x in n.ast.iter.elts):
+                    it = ("t", tuple(self.ev(x, env) for x in n.ast.iter.elts))
                 else:
                     it = self.ev(n.ast.iter, env)
-                if it[0] == "c" and isinstance(it[1], (tuple, bytes)) and len(it[1]) <= 8:
+                els = _elements(it)
+                if els is not None and isinstance(n.ast.target, (ast.Tuple, ast.List)):
+                    w = len(n.ast.target.elts)
+                    if not all((x[0] == "t" or (x[0] == "c" and isinstance(x[1], tuple))) and len(x[1]) == w for x in els):
+                        els = None                   # a row that does not unpack into the targets: not modelled
+                if els is not None:
                     key = "!it%d" % n.id
                     i = env.get(key, ("c", 0))[1]
                     if lab == "iter":
-                        if i >= len(it[1]):
+                        if i >= len(els):
                             return None
-                        env[n.ast.target.id] = _const(it[1][i])
+                        self.bind(n.ast.target, els[i], env)
                         env[key] = ("c", i + 1)
                     else:
-                        if i < len(it[1]):
+                        if i < len(els):
                             return None
                         env.pop(key, None)
                     return freeze(env, exact)
             if n.kind == "stmt" and isinstance(n.ast, ast.Assign):
                 v = self.ev(n.ast.value, env)
                 for t in n.ast.targets:
-                    parts = None
-                    if isinstance(t, (ast.Tuple, ast.List)) and all(
-                            isinstance(x, ast.Name) or (isinstance(x, ast.Attribute) and attr_path(x)) for x in t.elts):
-                        if v[0] == "t" and len(v[1]) == len(t.elts):
-                            parts = list(v[1])
-                        elif v[0] == "c" and isinstance(v[1], tuple) and len(v[1]) == len(t.elts):
-                            parts = [_const(x) for x in v[1]]
-                    if parts is not None:                # a, b = X, Y / a, b = helper(..): element by element
-                        for x, pv in zip(t.elts, parts):
-                            env[x.id if isinstance(x, ast.Name) else attr_path(x)] = pv
-                    elif isinstance(t, ast.Name):
-                        env[t.id] = v
-                    elif isinstance(t, ast.Attribute) and attr_path(t):
-                        env[attr_path(t)] = v
-                    else:
-                        for x in ast.walk(t):
-                            if isinstance(x, ast.Name) and isinstance(x.ctx, ast.Store):
-                                env[x.id] = UNK
-                            elif isinstance(x, ast.Attribute) and isinstance(x.ctx, ast.Store) and attr_path(x):
-                                env[attr_path(x)] = UNK
+                    self.bind(t, v, env)
                 return freeze(env, exact)
             if n.kind == "stmt" and isinstance(n.ast, ast.AnnAssign) and isinstance(n.ast.target, ast.Name) \
                     and n.ast.value is not None:
@@ -909,6 +1006,18 @@ class _AI:
         return out, len(visited)
 
 
+def _parser_class(idx, ai, fn, e, env):
+    """Qualified name of the class whose init_from_string is called on `e`: a class named at module level, or a local
+    (the class column of a dispatch-table row) whose abstract value is a class."""
+    v = ai.ev(e, env)
+    if v[0] == "k":
+        return v[1]
+    if isinstance(e, ast.Name) and e.id in env:
+        return None
+    k = idx.resolve_expr(fn.module, e) if isinstance(e, (ast.Name, ast.Attribute)) else None
+    return k.qual if isinstance(k, ClassInfo) else None
+
+
 def _abstract_run(idx, F, fn, cfg, base):
     """from_string on (first parameter = IN, other parameters = their defaults) ->
     ([(node, what, argument value, exact, witness)], states)."""
@@ -924,9 +1033,9 @@ def _abstract_run(idx, F, fn, cfg, base):
             v = n.ast.value
             what = ("other",)
             if isinstance(v, ast.Call) and call_tail(v) == "init_from_string" and isinstance(v.func, ast.Attribute):
-                k = idx.resolve_expr(fn.module, v.func.value)
-                if isinstance(k, ClassInfo):
-                    what = ("parse", k.qual)
+                k = _parser_class(idx, ai, fn, v.func.value, env)
+                if k is not None:
+                    what = ("parse", k)
                     a0 = arg(v, 0, "uri")
                     argv = ai.ev(a0, env) if a0 is not None else UNK
         out.append((n, what, argv, exact, w))
@@ -952,9 +1061,9 @@ def _scenario_run(idx, F, fn, head, extra=None):
             v = n.ast.value
             what = ("other",)
             if isinstance(v, ast.Call) and call_tail(v) == "init_from_string" and isinstance(v.func, ast.Attribute):
-                k = idx.resolve_expr(fn.module, v.func.value)
-                if isinstance(k, ClassInfo):
-                    what = ("parse", k.qual)
+                k = _parser_class(idx, ai, fn, v.func.value, env)
+                if k is not None:
+                    what = ("parse", k)
                     a0 = arg(v, 0, "uri")
                     argv = ai.ev(a0, env) if a0 is not None else UNK
             elif isinstance(v, ast.Call):
@@ -1391,8 +1500,18 @@ def run(ctx: Context):
                     continue
                 if isinstance(lit, bytes) and lit.startswith(b"URI:"):
                     tests.append((n, c.func.value.id, lit))
-        if not tests:
-            raise AnchorVanished("no startswith(b'URI:..') dispatch tests in from_string")
+        rets = [n for n in cfg.find(is_return) if n.id in reach]
+        # a dispatch written as data: `return <local>.init_from_string(..)`, the local being the class column of a row of
+        # a constant table.  Which classes end there, and on what argument, is decided per class by abstract execution.
+        stored = set()
+        for x in ast.walk(fn.node):
+            if isinstance(x, ast.Name) and isinstance(x.ctx, ast.Store):
+                stored.add(x.id)
+        table_rets = {n.id for n in rets if isinstance(n.ast.value, ast.Call) and call_tail(n.ast.value) == "init_from_string"
+                      and isinstance(n.ast.value.func, ast.Attribute) and isinstance(n.ast.value.func.value, ast.Name)
+                      and n.ast.value.func.value.id in stored}
+        if not tests and not table_rets:
+            raise AnchorVanished("no startswith(b'URI:..') dispatch tests and no table-driven dispatch in from_string")
 
         def only_after(target, gate_n, pol):
             def ge(n, lab):
@@ -1400,9 +1519,66 @@ def run(ctx: Context):
             return not find_path_avoiding(cfg, lambda x: x is target, gate_edge=ge)
         handled = set()
         exc_parents = {"BadURIError"} | {c.name for c in idx.cls("uri:BadURIError").mro()} | {"Exception", "BaseException"}
-        rets = [n for n in cfg.find(is_return) if n.id in reach]
+
+        def under_handler(n, k):
+            hs = [cfg.nodes[d] for (d, lab) in cfg.succ[n.id] if lab == "exc" and cfg.nodes[d].kind == "except"]
+            names = set()
+            for h in hs:
+                t = h.ast.type
+                for x in ([t] if not isinstance(t, ast.Tuple) else t.elts) if t is not None else []:
+                    names.add(attr_path(x).split(".")[-1] if attr_path(x) else "?")
+                if t is None:
+                    names.add("BaseException")
+            r.require(bool(names & exc_parents), k.qual, fn.loc(n.ast), "%s.init_from_string is called outside the "
+                      "BadURIError handler: a malformed %s string raises instead of becoming UnknownURI" % (k.name, k.name))
+
+        if table_rets:
+            # the rows (prefix, class) of the constant tables from_string iterates over
+            rows = {}
+            probe = _AI(idx, F, fn, None)
+            for x in ast.walk(fn.node):
+                it = x.iter if isinstance(x, (ast.For, ast.comprehension)) else None
+                els = _elements(probe.ev(it, {})) if it is not None else None
+                for row in els or []:
+                    cols = _elements(row) if (row[0] == "t" or (row[0] == "c" and isinstance(row[1], tuple))) else None
+                    for kq in [c[1] for c in cols or [] if c[0] == "k"]:
+                        rows.setdefault(kq, []).append([c[1] for c in cols if c[0] == "c" and isinstance(c[1], bytes)])
+            for q, k in sorted(all_classes.items()):
+                base = _fold_bytes(F, k, "BASE_STRING")
+                outcomes, nstates = _scenario_run(idx, F, fn, base)
+                r.count(nstates)
+                o = _certain(outcomes)
+                if o is None:
+                    if any(x[0].id in table_rets for x in outcomes):
+                        raise AnalysisError("table-driven from_string: where %r.. ends is not decided by the leading bytes" % base)
+                    continue
+                (n, what, argv, _exact, w) = o
+                if n.id not in table_rets:
+                    continue                        # a kind dispatched by a literal test (below), or not at all
+                if what != ("parse", q):
+                    r.violation(q, fn.loc(n.ast), "from_string sends strings starting with %s.BASE_STRING %r to %s" % (
+                        k.name, base, what[1] if what[0] == "parse" else "something that is not a cap class of this module"), w)
+                    handled.add(q)
+                    continue
+                r.site(fn, n.ast, k.name)
+                if q in handled:
+                    r.violation(q, fn.loc(n.ast), "%s is dispatched twice" % k.name)
+                handled.add(q)
+                mine = rows.get(q)
+                if not mine:
+                    raise AnalysisError("table-driven from_string: no constant table row names %s" % k.name)
+                if len(mine) > 1:
+                    r.violation(q, fn.loc(n.ast), "%s is dispatched by %d table rows" % (k.name, len(mine)))
+                for lits in mine:
+                    r.require(lits == [base], q, fn.loc(n.ast), "from_string's table sends strings starting with %s to %s "
+                              "whose BASE_STRING is %r" % ("/".join(repr(x) for x in lits) or "?", k.name, base))
+                r.require(argv == ("h", base, 0, True), q, fn.loc(n.ast),
+                          "from_string tests the input for %r but hands %s.init_from_string something else" % (base, k.name), w)
+                under_handler(n, k)
         for n in rets:
             v = n.ast.value
+            if n.id in table_rets:
+                continue
             if isinstance(v, ast.Call) and call_tail(v) == "init_from_string":
                 k = idx.resolve_expr(fn.module, v.func.value) if isinstance(v.func, ast.Attribute) else None
                 if not isinstance(k, ClassInfo) or k.qual not in all_classes:
@@ -1425,17 +1601,7 @@ def run(ctx: Context):
                 if k.qual in handled:
                     r.violation(k.qual, fn.loc(n.ast), "%s is dispatched twice" % k.name)
                 handled.add(k.qual)
-                # under the BadURIError handler
-                hs = [cfg.nodes[d] for (d, lab) in cfg.succ[n.id] if lab == "exc" and cfg.nodes[d].kind == "except"]
-                names = set()
-                for h in hs:
-                    t = h.ast.type
-                    for x in ([t] if not isinstance(t, ast.Tuple) else t.elts) if t is not None else []:
-                        names.add(attr_path(x).split(".")[-1] if attr_path(x) else "?")
-                    if t is None:
-                        names.add("BaseException")
-                r.require(bool(names & exc_parents), k.qual, fn.loc(n.ast), "%s.init_from_string is called outside the "
-                          "BadURIError handler: a malformed %s string raises instead of becoming UnknownURI" % (k.name, k.name))
+                under_handler(n, k)
             elif isinstance(v, ast.Call) and call_tail(v) == "UnknownURI":
                 a0 = arg(v, 0, "uri")
                 ok = isinstance(a0, ast.Name) and a0.id in fn.params and not any(
